@@ -397,6 +397,15 @@ def run(res, args):
         rep, info = c08_bodies.replay(ob, d)
         return rep, info, {'site': 'PropertyCodeBodies::next'}
     O.merge(res, [c08_bodies.obligation(fns, consts)], res.coverage, replay_bod, 'code body iterator')
+    # outputs must not depend on what an earlier run left on disk (shared with C15)
+    from . import c15
+
+    def replay_c15(ob, d):
+        rep, info = c15.replay(d)
+        return rep, info, {'site': 'generate_ui_file', 'probe': info['failed_probes'][0]['probe'] if info['failed_probes'] else None}
+    obx = c15.p7_every_output_considered(M.parse_functions(M.dump_mir_bin()), consts)
+    obx['name'] = obx['name'].replace('c15_', 'c08_')
+    O.merge(res, [obx], res.coverage, replay_c15, 'earlier runs')
     res.assumptions += [
         'C08 engine C: calls other than the iterator plumbing are uninterpreted and deterministic functions of their arguments; sorted_by_key sorts by a total order on keys, and the keys of one container are pairwise distinct',
         'Outside the claim: hash containers consumed by map/collect/find/any (listed per function as inconclusive if they appear on a path to the output), the order of diagnostics, process-to-process state, "rewritten only when bytes differ" (file system)',
